@@ -20,6 +20,7 @@ RULE = (
     "core has >= 1 non-zero exit code; 'evaluations' counts families, counters.variant_runs counts submissions; "
     "distinct by hash of the family"
 )
+RULE += " Later additions (DESIGN.md 9): " + 'HPC variants also get up to 2 operator commands at generated steps, one bound to the end of a batch and held back between two lock holds, and up to 2 unusual-SLURM-state windows.'
 ASSUMPTIONS = C.WORLD_ASSUMPTIONS
 setup, teardown = C.setup, C.teardown
 
